@@ -183,12 +183,15 @@ def _run(ix, R):
         if even is None or odd is None or len(fe) != 1:
             raise AnalysisError('the interleaved edge array (stores at [0::2] and [1::2], then self._bin_edges) is not found')
         buf = even[1]
-        b = {'wl': code(fl, 'self.wavelengthGrid'), 'bw': code(fl, 'self._bin_widths'), 'buf': buf}
-        ascending = fl.tab.equal(even[0].value, spec(fl, 'wl[::-1] - bw[::-1]/2', b)) and \
-            fl.tab.equal(odd[0].value, spec(fl, 'wl[::-1] + bw[::-1]/2', b)) and \
-            fl.tab.equal(fe[0].value, spec(fl, 'buf[::-1]', b))
-        descending = fl.tab.equal(even[0].value, spec(fl, 'wl + bw/2', b)) and \
-            fl.tab.equal(odd[0].value, spec(fl, 'wl - bw/2', b)) and fl.tab.equal(fe[0].value, buf)
+        ascending = descending = False
+        # the widths are the attribute just stored, or the value that was stored in it (read once into a local)
+        for bw_ in [code(fl, 'self._bin_widths')] + [e.value for e in bw[:1]]:
+            b = {'wl': code(fl, 'self.wavelengthGrid'), 'bw': bw_, 'buf': buf}
+            ascending = ascending or (fl.tab.equal(even[0].value, spec(fl, 'wl[::-1] - bw[::-1]/2', b)) and
+                                      fl.tab.equal(odd[0].value, spec(fl, 'wl[::-1] + bw[::-1]/2', b)) and
+                                      fl.tab.equal(fe[0].value, spec(fl, 'buf[::-1]', b)))
+            descending = descending or (fl.tab.equal(even[0].value, spec(fl, 'wl + bw/2', b)) and
+                                        fl.tab.equal(odd[0].value, spec(fl, 'wl - bw/2', b)) and fl.tab.equal(fe[0].value, buf))
         if not fl.tab.equal(odd[1], buf):
             why.append('the two halves are written to different arrays')
         if not (ascending or descending):
